@@ -334,6 +334,7 @@ const childMnemonic = "abandon abandon abandon abandon abandon abandon abandon a
 func (c *childState) expect(prefix string, timeout time.Duration) string {
 	select {
 	case ev := <-c.events:
+		c.checkPut() // a cursor write that happened before this observable is recorded before it
 		if !strings.HasPrefix(ev, prefix) {
 			c.record("BAD expected " + prefix + " got " + ev)
 			os.Exit(4)
@@ -341,6 +342,24 @@ func (c *childState) expect(prefix string, timeout time.Duration) string {
 		return ev
 	case <-time.After(timeout):
 		c.record("BAD timeout waiting for " + prefix)
+		os.Exit(4)
+	}
+	return ""
+}
+
+func (c *childState) expectAny(timeout time.Duration, prefixes ...string) string {
+	select {
+	case ev := <-c.events:
+		c.checkPut()
+		for _, p := range prefixes {
+			if strings.HasPrefix(ev, p) {
+				return ev
+			}
+		}
+		c.record("BAD expected one of " + strings.Join(prefixes, "|") + " got " + ev)
+		os.Exit(4)
+	case <-time.After(timeout):
+		c.record("BAD timeout waiting for " + strings.Join(prefixes, "|"))
 		os.Exit(4)
 	}
 	return ""
@@ -463,14 +482,14 @@ func runLoopChild(specPath string) {
 		c.expect("log receive new ethereum header.", 45*time.Second)
 		c.checkPut()
 		c.record(fmt.Sprintf("H %d", in.N))
-		if in.N < spec.T {
-			c.expect("log Ending block index negative", 45*time.Second)
+		// no assumption about the confirmation depth: see what the loop does with this header
+		q := c.expectAny(45*time.Second, "getlogs ", "log Ending block index negative")
+		if strings.HasPrefix(q, "log ") {
 			if strings.HasPrefix(in.Out, "c") {
 				c.die(idx)
 			}
 			continue
 		}
-		q := c.expect("getlogs ", 45*time.Second)
 		var lo, hi int64
 		fmt.Sscanf(q, "getlogs %d %d", &lo, &hi)
 		switch in.Out {
@@ -506,10 +525,9 @@ func runLoopChild(specPath string) {
 				c.checkPut()
 				c.die(idx)
 			}
-		} else if in.Out == "c1" || in.Out == "c2" || in.Out == "c3" || in.Out == "c4" {
-			c.record("BAD script: crash point needs a range with events")
-			os.Exit(4)
 		}
+		// (a crash point between query and cursor write cannot be realised on a range without events: the
+		// iteration then simply runs to its end, and the trace will say so)
 		// iteration runs to its end (10 s sleep if something was submitted)
 		c.notify(fakeHeader(0))
 		c.expect("log receive new ethereum header.", 245*time.Second)
